@@ -27,6 +27,7 @@ fn main() {
         Some("replay") => driver::cmd_replay(&args[1..]),
         Some("detlog") => driver::cmd_detlog(&args[1..]),
         Some("one") => driver::cmd_one(&args[1..]),
+        Some("selftest") => driver::cmd_selftest(&args[1..]),
         _ => {
             eprintln!("usage: meldasim check <Cxx> [--tier quick|thorough] [--seed N] [--runs N] [--jobs N]\n       meldasim replay <file>\n       meldasim detlog <Cxx> --seed N --runs N\n       meldasim one <Cxx> <run-seed>");
             2
